@@ -335,6 +335,17 @@ def to_line(case, impl):
     return line
 
 
+def _by_seq(rows):
+    """observable: per sequence name, its regions in reported order (the order of the sequences
+    themselves is not constrained by the property)"""
+    if not isinstance(rows, list):
+        return rows
+    d = {}
+    for c, s, e in rows:
+        d.setdefault(c, []).append((s, e))
+    return d
+
+
 def judge(case, impl, resp):
     if "error" in resp:
         return [], ["model error: " + resp["error"]], None
@@ -350,7 +361,7 @@ def judge(case, impl, resp):
         return [], [f"{case['op']}: impl raises {impl_err}, model raises {model_err}"], None
     spec = list(resp.get("spec") or [])
     disagree = []
-    if impl != out:
+    if _by_seq(impl) != _by_seq(out):
         disagree.append(f"{case['op']}: impl != model")
     names = [s[0] for s in case["in"].get("seqs", [])]
     if len(set(names)) == len(names) and not _malformed(case):
